@@ -1094,7 +1094,18 @@ func deriveC16(rs *RunSpec, b *Bank, r *model.Rng) {
 				// encodes of a definition that contains itself, around the encode of a very deep value of it: what
 				// the extreme call leaves behind in the definition's state meets the ordinary values again
 				f := FocusBase + uint64(recIdx)*FocusVariants
-				for _, id := range []uint64{f, f + 5, DeepBase + uint64(4*recK+rr.Intn(4)), f + 7, f} {
+				var ord []uint64 // the ordinary values: small ones (a tree-shaped value of such a definition can have megabytes)
+				for _, id := range []uint64{f, f + 5, f + 7} {
+					op := b.Op(id)
+					w := model.GenValue(b.C, b.C.Get(op.Type), op.VSeed, model.VOpt{Budget: op.Budget, Foreign: op.Foreign})
+					if len(w.Bytes()) <= 8192 {
+						ord = append(ord, id)
+					}
+				}
+				if len(ord) == 0 {
+					ord = []uint64{DeepBase + uint64(4*recK)} // the shortest chain
+				}
+				for _, id := range []uint64{ord[0], ord[1%len(ord)], DeepBase + uint64(4*recK+rr.Intn(4)), ord[2%len(ord)], ord[0]} {
 					rs.Hist = append(rs.Hist, Step{Slot: slot, Task: t, Round: round, Op: id})
 					slot++
 				}
